@@ -150,8 +150,8 @@ def _target_dir(featset):
     return os.path.join(KANI_DIR, "target", featset)
 
 
-def _base_cmd(featset, extra_z=()):
-    cmd = ["cargo", "kani", "--target-dir", _target_dir(featset), "-Z", "stubbing", "-Z", "unstable-options"]
+def _base_cmd(featset, extra_z=(), suffix=""):
+    cmd = ["cargo", "kani", "--target-dir", _target_dir(featset) + suffix, "-Z", "stubbing", "-Z", "unstable-options"]
     for z in extra_z:
         cmd += ["-Z", z]
     feats = FEATURE_SETS[featset]
@@ -227,10 +227,10 @@ def _classify_failed(desc):
     return "assert"
 
 
-def playback(h, featset, timeout):
+def playback(h, featset, timeout, suffix=""):
     """Re-run ONE failing harness alone (unambiguous output) for its failed checks and a concrete counterexample.
     -> (vals or None, parsed_result_dict, raw_tail)"""
-    cmd = _base_cmd(featset, ("concrete-playback",)) + ["--harness", h.path, "--exact", "--concrete-playback=print",
+    cmd = _base_cmd(featset, ("concrete-playback",), suffix) + ["--harness", h.path, "--exact", "--concrete-playback=print",
                                                          "--output-format=terse", "--harness-timeout", "%ds" % timeout]
     try:
         p = subprocess.run(cmd, cwd=KANI_DIR, env=_env(), stdout=subprocess.PIPE, stderr=subprocess.STDOUT,
@@ -292,6 +292,24 @@ def run_group(label, hs, featset, jobs=8):
         r.error = "vacuity guard: kani group %s has no harnesses" % label
         return r
     _sync_lock()
+    # harnesses named by a known finding are expected to fail: they are run once, alone (the run that also yields the
+    # counterexample), concurrently with the batch and in their own target directory, instead of batch + re-run
+    import core as _core
+    import threading
+    krx = [k["rx"] for k in _core.load_known()]
+    pre = [h for h in hs if any(re.search(rx, "kani::%s[%s]" % (h.name, featset)) for rx in krx)]
+    pre_res = {}
+    pre_threads = []
+    for h in pre:
+        th = threading.Thread(target=lambda h=h: pre_res.__setitem__(h.name, playback(h, featset, h.timeout, suffix="-known")))
+        th.start()
+        pre_threads.append(th)
+    all_hs = hs
+    hs = [h for h in hs if h not in pre]
+    if not hs:
+        for th in pre_threads:
+            th.join()
+        return _finish_group(r, label, all_hs, featset, "", set(h.name for h in pre), {}, 0, jobs, t0, pre_res, max(h.timeout for h in all_hs))
     tmo = max(h.timeout for h in hs)
     # memory budget: the sandbox has 62 GB and no swap; @mem <GB> is the observed peak of a harness
     jobs = max(1, min(jobs, int(44 // max(h.mem_gb for h in hs))))
@@ -319,13 +337,21 @@ def run_group(label, hs, featset, jobs=8):
     if not msum or int(msum.group(3)) != len(hs):
         r.error = "cargo kani group %s: no/inconsistent summary (%s harnesses requested)\n%s" % (label, len(hs), text[-2500:])
         r.wall_s = time.time() - t0
+        for th in pre_threads:
+            th.join()
         return r
+    for th in pre_threads:
+        th.join()
+    failed_names |= set(h.name for h in pre)
+    return _finish_group(r, label, all_hs, featset, text, failed_names, per_harness_results(text), len(hs), jobs, t0, pre_res, tmo)
+
+
+def _finish_group(r, label, hs, featset, text, failed_names, times, n_batch, jobs, t0, pre_res, tmo):
     blocks = [(int(a), int(b)) for a, b in re.findall(r'\*\* (\d+) of (\d+) failed', text)]
     ok_checks = sum(b for a, b in blocks if a == 0)
     covers_bad = [m for m in re.findall(r'\*\* (\d+) of (\d+) cover properties satisfied', text) if int(m[0]) < int(m[1])]
     n_ok = len(hs) - len(failed_names)
     r.solver_s += sum(float(x) for x in re.findall(r'Verification Time: ([\d.]+)s', text))
-    times = per_harness_results(text)
     r.samples.append({"kani_group": label, "harnesses": len(hs), "verified": n_ok, "cbmc_checks_in_verified_harnesses": ok_checks,
                       "parallel_jobs": jobs, "seconds_per_harness": {k: round(v[1], 1) for k, v in sorted(times.items())}})
     for h in hs:
@@ -348,8 +374,9 @@ def run_group(label, hs, featset, jobs=8):
             r.obls.append(Obl(oname, label, "kani-cbmc", "undecided", bounded=h.bound,
                               detail="no result within %ds in the batch run (timeout / out of memory)" % tmo))
             continue
-        # failed in the batch: re-run alone for an unambiguous verdict + counterexample
-        vals, d, pb = playback(h, featset, h.timeout)
+        # failed in the batch: re-run alone for an unambiguous verdict + counterexample (known-finding harnesses were
+        # run that way in the first place)
+        vals, d, pb = pre_res[h.name] if h.name in pre_res else playback(h, featset, h.timeout)
         if d["status"] in (None, "TIMEOUT"):
             r.obls.append(Obl(oname, label, "kani-cbmc", "undecided", bounded=h.bound,
                               detail="no result within %ds (timeout / out of memory)" % h.timeout))
